@@ -90,6 +90,17 @@ func runC02(r *run) {
 				emit(caseT{"goleaf", []string{hx(strings.ReplaceAll(tpl, "L", leaf)), leaf}})
 			}
 		}
+		// macro parameters whose DEFAULT is a context expression, printed in the body, the argument omitted
+		for _, src := range []string{"{% macro badge(label, title=s1) %}[{{ title }}|{{ label }}]{% endmacro %}{{ badge(\"a\") }}{{ badge(\"a\", s2) }}{{ badge() }}",
+			"{% macro m(a=m.k, b=lst.0, c=s1|lower) %}{{ a }}{{ b }}{{ c }}{% endmacro %}{{ m() }}{{ m(1) }}{{ m(1, 2) }}", "{% macro o(x=s1) %}{% macro i(y=x) %}{{ y }}{% endmacro %}{{ i() }}{% endmacro %}{{ o() }}",
+			"{% for q in lst %}{% macro r(v=q) %}[{{ v }}]{% endmacro %}{{ r() }}{% endfor %}", "{% macro w(t=s1) %}{% with u=t %}{{ u }}{% endwith %}{% for z in lst %}{{ t }}{% endfor %}{% endmacro %}{{ w() }}",
+			"{% macro f(t=s1 + s2) %}{% firstof t %}{% cycle t \"x\" %}{% endmacro %}{{ f() }}"} {
+			g := newProgGen(rg.fork(14))
+			g.taint = c02Marker
+			for v := 0; v < 2; v++ {
+				emit(caseT{"render", (&world{}).args(src, g.context(v))})
+			}
+		}
 		// every argument position of every tag given a tainted context value: whatever the tag does
 		// with it (most refuse at compile time), it does not write it raw
 		{
